@@ -1,0 +1,87 @@
+//go:build verif
+
+package connections
+
+// Contracts for the relay pagination functions (property C20).
+// Comment-only file: it is compiled only with -tags verif and contains no code.
+
+//@ func OffsetToCursor
+//@   purefn
+//@   trusted
+//@   props C20
+
+//@ func Edge.GetCursor
+//@   purefn
+//@   props C20
+
+//@ spec func cursorInv(s string) int
+//@ axiom cursor_injective: forall k int :: { OffsetToCursor(k) } cursorInv(OffsetToCursor(k)) == k
+
+//@ func LazyBugEdge.GetCursor
+//@ func LazyIdentityEdge.GetCursor
+//@   purefn
+//@   ensures result == lbe.Cursor
+//@   props C20
+
+//@ dispatch Edge.GetCursor on LazyBugEdge
+//@ dispatch Edge.GetCursor on LazyIdentityEdge
+//@ dispatch Edge.GetCursor on models.BugEdge
+//@ dispatch Edge.GetCursor on models.IdentityEdge
+//@ dispatch Edge.GetCursor on models.OperationEdge
+//@ dispatch Edge.GetCursor on models.CommentEdge
+//@ dispatch Edge.GetCursor on models.TimelineItemEdge
+//@ dispatch Edge.GetCursor on models.LabelEdge
+
+//@ func LabelCon        with EdgeType = models.LabelEdge, NodeType = bug.Label
+//@ func CommentCon      with EdgeType = models.CommentEdge, NodeType = bug.Comment
+//@ func TimelineItemCon with EdgeType = models.TimelineItemEdge, NodeType = bug.TimelineItem
+//@ func OperationCon    with EdgeType = models.OperationEdge, NodeType = dag.Operation
+//@ func IdentityCon     with EdgeType = models.IdentityEdge, NodeType = models.IdentityWrapper
+//@ func LazyBugCon      with EdgeType = LazyBugEdge, NodeType = entity.Id
+//@ func LazyIdentityCon with EdgeType = LazyIdentityEdge, NodeType = entity.Id
+//@   props C20
+//@   pure edgeMaker, conMaker
+//@   nopanic
+//@   let N = len(source0)
+//@   requires [edger-cursor] forall v NodeType, k int :: { edgeMaker(v, k) } 0 <= k && k < N && v == source0[k] ==> edgeMaker(v, k).GetCursor() == OffsetToCursor(k)
+//@   requires [edger-type]   forall v NodeType, k int :: { edgeMaker(v, k) } 0 <= k && k < N && v == source0[k] ==> typeof(edgeMaker(v, k)) == type[EdgeType]
+//@   let ai = cursorInv(*input.After)
+//@   let af = input.After != nil && 0 <= ai && ai < N && OffsetToCursor(ai) == *input.After
+//@   let a  = af ? ai + 1 : 0
+//@   let bi = cursorInv(*input.Before)
+//@   let bf = input.Before != nil && a <= bi && bi < N && OffsetToCursor(bi) == *input.Before
+//@   let b  = bf ? bi : N
+//@   let b1 = (input.First != nil && b - a > *input.First) ? a + *input.First : b
+//@   let a1 = (input.Last != nil && b1 - a > *input.Last) ? b1 - *input.Last : a
+//@   let negFirst = input.First != nil && *input.First < 0
+//@   let negLast  = input.Last != nil && *input.Last < 0
+//@   let ok = !negFirst && !negLast
+//@   let E  = last(conMaker, 0)
+//@   let Nd = last(conMaker, 1)
+//@   let P  = last(conMaker, 2)
+//@   ensures [neg-first] negFirst ==> err != nil
+//@   ensures [neg-last]  negLast ==> err != nil
+//@   ensures [returns-conMaker] ok ==> result == last(conMaker) && err == lastres(conMaker, 1)
+//@   ensures [window-len]   ok ==> len(E) == b1 - a1 && len(Nd) == b1 - a1 && 0 <= a1 && a1 <= b1 && b1 <= N
+//@   ensures [window-nodes] ok ==> forall k int :: { Nd[k] } 0 <= k && k < b1 - a1 ==> Nd[k] == old(source0[a1 + k])
+//@   ensures [window-edges] ok ==> forall k int :: { E[k] } 0 <= k && k < b1 - a1 ==> E[k] != nil && E[k].Cursor == OffsetToCursor(a1 + k)
+//@   ensures [total]   ok ==> last(conMaker, 3) == N
+//@   ensures [flags]   ok ==> P != nil && P.HasNextPage == (bf || b1 < b) && P.HasPreviousPage == (af || a1 > a)
+//@   ensures [cursors] ok && b1 > a1 ==> P.StartCursor == OffsetToCursor(a1) && P.EndCursor == OffsetToCursor(b1 - 1)
+//@   loop 1
+//@     invariant -1 <= rangeindex && rangeindex < N
+//@     invariant forall k int :: { OffsetToCursor(k) } 0 <= k && k <= rangeindex ==> OffsetToCursor(k) != *input.After
+//@   loop 2
+//@     invariant -1 <= rangeindex && rangeindex < len(source)
+//@     invariant len(edges) == rangeindex + 1 && len(cursors) == rangeindex + 1 && len(nodes) == rangeindex + 1
+//@     invariant nodes == nil || fresh(nodes)
+//@     invariant edges == nil || fresh(edges)
+//@     invariant forall k int :: { source0[k] } 0 <= k && k < N ==> source0[k] == old(source0[k])
+//@     invariant forall k int :: { OffsetToCursor(k) } offset <= k && k <= rangeindex + offset ==> OffsetToCursor(k) != *input.Before
+//@     invariant forall k int :: { edges[k] } 0 <= k && k <= rangeindex ==> allocated(edges[k]) && edges[k].Cursor == OffsetToCursor(k + offset)
+//@     invariant forall k int :: { cursors[k] } 0 <= k && k <= rangeindex ==> cursors[k] == OffsetToCursor(k + offset)
+//@     invariant forall k int :: { nodes[k] } 0 <= k && k <= rangeindex ==> nodes[k] == source[k]
+//@   loop 3
+//@     invariant -1 <= rangeindex && rangeindex < len(source)
+//@     invariant forall k int :: { edges[k] } 0 <= k && k <= rangeindex ==> allocated(edges[k]) && edges[k].Cursor == OffsetToCursor(k + offset)
+//@     invariant forall k int :: { cursors[k] } 0 <= k && k <= rangeindex ==> cursors[k] == OffsetToCursor(k + offset)
